@@ -2,6 +2,7 @@ import ComposeVerif.Ops.Common
 import ComposeVerif.Model.Heap
 import ComposeVerif.Gen.CopyPlan
 import ComposeVerif.Model.Derivations
+import ComposeVerif.Model.DerivApply
 import ComposeVerif.Model.HeapVisit
 /-! line-protocol ops for C14: `c14.copy` (model of the generated deep copy), `c14.spec` (isolation decided by the spec) -/
 open Lean
@@ -168,7 +169,7 @@ def affectedFields (plan : Plan) (src : GoVal) (n : Nat) (st : St) (res : GoVal)
 /-- the heap program of a derivation run on the encoded receiver: result, error class, and what the model observed
 about its own run (receiver variable unchanged, every write above the receiver's frontier) -/
 def derivOp : Handler := fun args =>
-  match rootOf "Project", CV.Heap.Deriv.programs.find? (fun p => p.1 == getStr args "op"), ofJson (getObj args "src") with
+  match rootOf "Project", CV.Heap.Deriv.programsAll.find? (fun p => p.1 == getStr args "op"), ofJson (getObj args "src") with
   | some (ty, plan), some (_, prog), .ok src =>
     let n := (oaddrs src).foldl (fun m a => max m (a+1)) (frontier src)
     let pargs : List (String × PData) := match getObj args "pargs" with
@@ -181,7 +182,11 @@ def derivOp : Handler := fun args =>
     Json.mkObj [("res", if st.err.isSome && (match res with | .nil => true | _ => false) then Json.null else toJson (sortMaps res)),
       ("err", match st.err with | some e => Json.str e | none => Json.null),
       ("recvUnchanged", Json.bool recvSame), ("confined", Json.bool confined),
-      ("wellTyped", Json.bool (match res with | .nil => true | _ => hasTy ty res)), ("rf", Json.bool (rfL prog)),
+      ("wellTyped", Json.bool (match res with | .nil => true | _ => hasTy ty res)),
+      -- `apply` is receiver free on the branch under WithSecretContent; without the option it returns the receiver (no write, no allocation)
+      ("rf", Json.bool (if getStr args "op" == "MarshalApply" then
+          (if (getP "secretsContent" pargs) == some ["1"] then rfL CV.Heap.Deriv.applySecrets else st.log.isEmpty && st.next == n)
+        else rfL prog)),
       ("writes", (st.log.length : Nat)),
       ("affected", match affectedFields plan src n st res with
         | some l => Json.arr (l.map Json.str).toArray
